@@ -422,6 +422,28 @@ fn worker(prop: &props::PropDef, args: &Args) -> i32 {
         });
     }
     (prop.run)(&r);
+    // alternate-backend passes: the semantic properties must hold whichever scanner backend
+    // is dispatched to, so the same phases are run again — a 1/ALT_STRIDE sample of every
+    // enumeration and of every random phase — with the scalar (SWAR) and the SSE4.2 arm
+    // forced through hook H2. (C01, C04, C12, C13, C19, C20 handle backends themselves;
+    // chunk sizes do not use a scanner.)
+    if matches!(prop.id, "C02" | "C03" | "C05" | "C06" | "C07" | "C08" | "C10" | "C11" | "C14" | "C15" | "C16" | "C17" | "C18")
+        && std::env::var("VERIF_NO_ALT").as_deref() != Ok("1")
+    {
+        let native = if is_x86_feature_detected!("avx2") { 1 } else if is_x86_feature_detected!("sse4.2") { 2 } else { 3 };
+        let stride = vlib::engine::env_u64("VERIF_ALT_STRIDE", 4).max(2);
+        for be in real::usable_backends() {
+            if be == native || be == 0 || r.stopped() {
+                continue;
+            }
+            r.stride.store(stride, std::sync::atomic::Ordering::Relaxed);
+            real::set_backend(be);
+            r.note(format!("alternate-backend pass: every phase re-run on a 1/{} sample with the {} dispatch arm forced (hook H2)", stride, real::backend_name(be)));
+            (prop.run)(&r);
+        }
+        r.stride.store(1, std::sync::atomic::Ordering::Relaxed);
+        real::set_backend(0);
+    }
     finished.store(true, std::sync::atomic::Ordering::Relaxed);
     if args.tier == Tier::Thorough && !r.stopped() && !cfg!(debug_assertions) && std::env::var("VERIF_NO_FUZZ").as_deref() != Ok("1") {
         fuzz_phase(prop, &r);
@@ -433,7 +455,9 @@ fn worker(prop: &props::PropDef, args: &Args) -> i32 {
     let dir = format!("{}/replays/found", vlib::verif_dir());
     let mut nviol = 0;
     for v in found {
+        real::set_backend(v.rec.backend);
         let v = r.shrink(v, &check);
+        real::set_backend(0);
         let _ = std::fs::create_dir_all(&dir);
         let h = vlib::engine::rec_hash(&v.rec);
         let file = format!("{}/{}-{:016x}.json", dir, prop.id, h);
